@@ -79,7 +79,7 @@ Definition dec_meth (s : sexp) : option meth :=
   match s with
   | SA n => find (fun m => String.eqb (meth_name m) n)
                  [MNestedKeys; MValuesList; MItemsList; MSortedKeys; MFlattenKeys; MUnflattenKeys; MDetach; MDtype; MDepth; MBytes;
-                  MParamCount; MAddBatchDim; MLazyNames; MKeyList; MHasExclusive; MLazyGetStr]
+                  MParamCount; MAddBatchDim; MKeyList; MHasExclusive; MLazyGetStr]
   | _ => None
   end.
 
@@ -164,7 +164,7 @@ Fixpoint trace (fx : fixes) (hk : bool) (s : state) (ops : list op) : list sexp 
 Definition dec_fixes (s : sexp) : option fixes :=
   match s with
   | SL [a; b; c] => match dec_bool a, dec_bool b, dec_bool c with
-                    | Some a, Some b, Some c => Some {| fix_rebind := a; fix_meta := b; fix_memmap_lock := c |}
+                    | Some a, Some b, Some c => Some {| fix_rebind := a; fix_meta := b; fix_memmap := c |}
                     | _, _, _ => None end
   | _ => None
   end.
